@@ -106,6 +106,9 @@ class P(StreamProperty):
             sub = gens.ldpc_loss_subset(rng, cfg)
             cases.append(gens.decoder_case('big%d' % j, cfg, gens.random_order(rng, sub, 0.1), api=rng.choice(['stream', 'table']),
                                            cb=rng.choice(['buf', 'null', 'mix']), finish=True, role=3 if j % 4 == 3 else 2, cb_first=(j % 2 == 1)))
+        # histories that go on after of_finish_decoding (second finish, late symbols, finish again): still exactly one event per decoded symbol
+        cases += [c for c in gens.after_finish_cases(rng, 'af', 60 if tier == 'quick' else 900, kinds=('ldpc', 'ldpc', 'rs8', 'rs2m4', 'ldpc', 'rs2m8'))
+                  if c.meta.get('cb') != 'none']
         return cases
 
     def extra_stats(self, cases, res):
